@@ -185,11 +185,11 @@ def express(value: Fraction, kind, unit, dtype):
     return float(si.ld(q))
 
 
-def make_var(vals, unit, dtype, vector=False, scalar=False):
+def make_var(vals, unit, dtype, vector=False, scalar=False, dim='x'):
     if vector:
         arr = np.asarray(vals, dtype=np.float64)
         return sc.vector(arr, unit=unit) if arr.ndim == 1 else sc.vectors(dims=['x'], values=arr, unit=unit)
-    return sc.array(dims=['x'], values=np.asarray(vals), unit=unit, dtype=dtype)
+    return sc.array(dims=[dim], values=np.asarray(vals), unit=unit, dtype=dtype)
 
 
 class Monitor:
@@ -258,7 +258,10 @@ def run_kernel_grid(rng, ctx, spec, fn, cells, tier, mon, point_index=0):
             vals = [express(v, a.kind, u, dt) for v in pt[a.name]]
             if any(v is None for v in vals):
                 return None
-            kw[a.name] = make_var(vals, u, dt)
+            # gravity kernels: every other pair of points gives the wavelength its own dimension, so that
+            # the result is 2-d (detector x wavelength) and the out-of-place broadcasting branch runs
+            own_dim = a.name == 'wavelength' and 'gravity' in vecs and (point_index // 2) % 2 == 1
+            kw[a.name] = make_var(vals, u, dt, dim='w' if own_dim else 'x')
         return kw
 
     base_kw = build(canon_units, {a.name: 'float64' for a in spec.args})
@@ -289,6 +292,9 @@ def run_kernel_grid(rng, ctx, spec, fn, cells, tier, mon, point_index=0):
         if kw is None:
             ctx.count('cells skipped: value not an exact small integer in that unit')
             continue
+        # re-expressing a float32 operand in another unit is itself only exact to single precision, so any
+        # float32 operand sets the comparison to single precision here (C01/C05 judge mixed-precision
+        # accuracy against the definition at the actual input values)
         any32 = any(dtypes[a.name] == 'float32' for a in spec.args if not a.vector)
         tol = TOL32 if any32 else TOL64
         data_args = [a for a in spec.args if a.data]
@@ -404,7 +410,8 @@ def run(shard, ctx):
             cells = list(all_cells(spec))
             total = len(cells)
             budget = shard['cells']
-            points = int(min(40, max(shard['points'], budget // max(total, 1))))
+            min_points = 4 if any(a.name == 'gravity' for a in spec.args) else shard['points']
+            points = int(min(40, max(min_points, budget // max(total, 1))))
             k = min(total, max(1, budget // points))
             for ipt in range(points):
                 if k < total:
